@@ -54,6 +54,16 @@ ASSUMPTIONS = [
     "index/diff.py:_diff visits every key of either index exactly once (C08); the model uses the flat union",
     "dvc_objects temp files '.<22 chars>.tmp' left beside a destination that os.replace refused are ignored by the walk (counted)",
     "link types limited to copy/hardlink/symlink (no reflink on this file system)",
+    "a live symlink to a directory in the prior workspace sits at a path the target does not have (build lists it as "
+    "a directory entry and nothing below it; in the model it is an empty directory; _delete_dirs unlinks it, 345fea1); "
+    "a link at a path the target HAS as a directory would make checkout write through it: not generated",
+    "scope notes of the coverage audit, recorded in evidence audit_observations, not judged (lead's rulings): "
+    "(A) with update_meta=True, apply's default, an unavailable source is reported and then FileNotFoundError escapes "
+    "from the metadata refresh; (B) update_meta=True refreshes entry.meta before _chmod_files, so the target index "
+    "entry loses isexec (a later checkout with the same index object reproduces THAT target); (D) a FILE entry at the "
+    "root key () has no buildable old: an existing directory / other file at the workspace path is not replaced under "
+    "hardlink/symlink; (E) old=None over existing content and a stale old index are outside the quantifier (old = image "
+    "of the workspace); (F) an in-memory DataIndex.view(key) keeps absolute entry keys - SQLite-backed views are used",
     "without delete, a target file whose path is occupied by a non-empty directory of the prior workspace cannot "
     "be created (copy: IsADirectoryError through onerror; hardlink/symlink: FileExistsError swallowed by "
     "dvc_objects transfer): no clause of the property covers a kind conflict with deletion off - modelled, not judged",
@@ -158,6 +168,26 @@ def add_dangling(rng, prior, target):
         for i in range(1, len(parts)):
             t.pop("/".join(parts[:i]), None)  # an empty-directory marker that gained a child
         t[k] = "X"
+    return t
+
+
+def add_dirlinks(rng, prior, target):
+    """plant 1-2 live symlinks to directories outside the workspace ("L") at paths the target does not have:
+    top level, inside a directory the target keeps, inside a directory that must disappear"""
+    t = dict(prior)
+    tnodes = set(files_of(target)) | dirs_of(target)
+    keep = sorted(d for d in dirs_of(prior) if d in dirs_of(target))
+    drop = sorted(d for d in dirs_of(prior) if d not in tnodes)
+    for _ in range(rng.randint(1, 2)):
+        r = rng.random()
+        base = rng.choice(keep) if r < 0.35 and keep else rng.choice(drop) if r < 0.7 and drop else None
+        k = (base + "/" if base else "") + rng.choice(["lnk", "l2", NAMES[0] + ".lnk"])
+        if len(k.split("/")) > 4 or k in tnodes or any(x == k or x.startswith(k + "/") for x in t):
+            continue
+        parts = k.split("/")
+        for i in range(1, len(parts)):
+            t.pop("/".join(parts[:i]), None)   # an empty-directory marker that gained a child
+        t[k] = "L"
     return t
 
 
@@ -273,6 +303,15 @@ def mk_ws(root, tree):
         os.makedirs(os.path.dirname(p), exist_ok=True)
         if v == "X":
             os.symlink("/nonexistent-verif-c09/gone", p)
+            continue
+        if v == "L":   # a live symbolic link to a directory OUTSIDE the workspace (holding one precious file)
+            ext = os.path.join(os.path.dirname(os.path.realpath(root)), "elsewhere")
+            os.makedirs(ext, exist_ok=True)
+            tgt = os.path.join(ext, "d%d" % len(os.listdir(ext)))
+            os.makedirs(tgt)
+            with open(os.path.join(tgt, "precious"), "wb") as f:
+                f.write(b"keep")
+            os.symlink(tgt, p)
             continue
         with open(p, "wb") as f:
             f.write(v[0].encode())
@@ -543,6 +582,9 @@ def run_real(ctx, case):
         state.close()
     res["errs"] = sorted(errs)
     res["walk"], res["litter"] = walk_ws(wsdir)
+    ext = os.path.join(root, "elsewhere")
+    res["elsewhere"] = {d_: sorted(os.listdir(os.path.join(ext, d_))) for d_ in sorted(os.listdir(ext))} \
+        if os.path.isdir(ext) else {}
     try:
         d2 = compare(ws_index(), new, delete=case["delete"])
         res["plan2"] = plan_keys(d2)
@@ -648,7 +690,9 @@ def case_term(case, res):
     ws_items = []
     for rel, v in case["prior"].items():
         k = key_of(rel)
-        if v == "X":
+        if v == "L":   # build lists a link to a directory as a directory entry; nothing below it is walked
+            ws_items.append(cpair(ckey(k), "Dir"))
+        elif v == "X":
             ws_items.append(cpair(ckey(k), "Dangling"))
         elif v is not None:
             ws_items.append(cpair(ckey(k), f"(File {cbytes(v[0])} {cbool(v[1])} false)"))
@@ -761,6 +805,20 @@ def oracle(case, res):
             return [("C09:not-converged:dangling-at-hashless-dir",
                      f"dangling link(s) {at} sit at directory entries of the target; apply raised {res['raised']} "
                      f"out of _create_dirs, the workspace is {sorted(walk.items())[:6]}...")]
+    # -- directory symlinks of the prior workspace: what they point to is never touched; with delete they go
+    bad_ext = {d_: l_ for d_, l_ in res.get("elsewhere", {}).items() if l_ != ["precious"]}
+    if bad_ext:
+        problems.append(("C09:dir-symlink:linked-directory-modified",
+                         f"a directory outside the workspace, reached through a symlink, was changed: {bad_ext}"))
+    links = [key_of(rel) for rel, v in case["prior"].items() if v == "L"]
+    if case["delete"] and links:
+        left = [k for k in links if k in walk and k not in dirs and k not in implicit and k not in files]
+        p2 = res["plan2"] or {}
+        again = [k for k in links if k in (p2.get("dirs_delete") or [])]
+        if left or again:
+            return problems + [("C09:not-converged:dir-symlink-in-workspace",
+                                f"symlink(s) to a directory that the target does not have: still there {left}, "
+                                f"second compare plans dirs_delete {again}")]
     # -- unavailable sources are reported (any delete mode)
     for k in sorted(failed):
         if k not in reported:
@@ -820,7 +878,7 @@ def oracle(case, res):
         nodes = set(files) | dirs | implicit
         prior_nodes = {}
         for rel, v in case["prior"].items():
-            prior_nodes[key_of(rel)] = "D" if v is None else ("X" if v == "X" else (v[0], v[1]))
+            prior_nodes[key_of(rel)] = "D" if v is None or v == "L" else ("X" if v == "X" else (v[0], v[1]))
         for d in dirs_of(case["prior"]):
             prior_nodes[key_of(d)] = "D"
         for k, v in sorted(prior_nodes.items()):
@@ -920,7 +978,8 @@ def gen_case(ctx, form=None):
         if not consistent(prior):
             prior = {}
     dangling = form == "dangling"
-    form = rng.choice(["build", "build", "lazy-root", "mixed", "mixed"]) if form in (None, "dangling") else form
+    dirlink = form == "dirlink"
+    form = rng.choice(["build", "build", "lazy-root", "mixed", "mixed"]) if form in (None, "dangling", "dirlink") else form
     case = {"prior": prior, "target_tree": target, "form": form,
             "delete": True if form == "implicit" else rng.random() < 0.7,
             "link": rng.choice(["copy", "hardlink", "symlink"]), "cls": rng.choice(["local", "base"])}
@@ -930,6 +989,8 @@ def gen_case(ctx, form=None):
     finish_case(ctx, case)
     if dangling or rng.random() < 0.25:
         case["prior"] = add_dangling(rng, case["prior"], target)
+    if dirlink or rng.random() < 0.08:
+        case["prior"] = add_dirlinks(rng, case["prior"], target)
     if not any(v == "X" for v in case["prior"].values()) and rng.random() < 0.5:
         case["old_index"] = "md5build"
     if rng.random() < 0.25:
@@ -986,6 +1047,10 @@ def audit_knobs(ctx, case):
     rng = ctx.rng
     if rng.random() < 0.5:
         case["links"] = rng.choice(LINK_LISTS)
+    if case.get("links") and case["links"][0] == "reflink" and not case["delete"]:
+        # without delete a directory may be in the way of a file; the failed reflink attempt then decides which
+        # exception transfer sees (reported) - the model only knows the effective link type: oracle only
+        case["no_model"] = True
     if rng.random() < 0.4:
         case["jobs"] = rng.choice([1, 2, 7])
     if rng.random() < 0.4:
@@ -1058,6 +1123,12 @@ def scripted_audit():
         out.append({"prior": dict(prior), "target_tree": files_of(target), "form": "lazy-root", "delete": True,
                     "link": "copy", "cls": "local", "route": route,
                     "spec": [{"k": "", "t": "lazy", "tree": {k: c for k, (c, _) in files_of(target).items()}}]})
+    # live symlinks to directories outside the workspace, absent from the target (345fea1): top level, nested in
+    # a kept directory, nested in a directory that disappears; delete on and off
+    for link in ("copy", "hardlink", "symlink"):
+        for delete in (True, False):
+            out.append(base(prior={"a": ("old", False), "lnk": "L", "d/l2": "L", "z/deep/l3": "L", "z/y": A},
+                            link=link, delete=delete))
     # old=None onto an empty workspace (what the repository's own tests do)
     for link in ("copy", "hardlink", "symlink"):
         out.append(base(prior={}, old="none", link=link))
@@ -1135,6 +1206,9 @@ def dimensions_of(case, res, files, dirs, implicit):
     pv = case["prior"]
     if any(v == "X" for v in pv.values()):
         d.append("prior:dangling-symlink")
+    for rel, v in pv.items():
+        if v == "L":
+            d.append("prior:directory-symlink:" + ("top-level" if "/" not in rel else "nested"))
     tf = {"/".join(k): v for k, v in files.items()}
     for rel, v in pv.items():
         if isinstance(v, (tuple, list)) and rel in tf:
@@ -1468,6 +1542,8 @@ def run(ctx):
     del RELINK_ITEMS[:]
     for c in scripted_audit():
         judge(ctx, finish_case(ctx, c), items, "audit-corpus")
+    for _ in range(ctx.n(12, 200)):
+        judge(ctx, gen_case(ctx, "dirlink"), items, "dirlink")
     n_audit = ctx.n(24, 500)
     for _ in range(n_audit):
         judge(ctx, audit_knobs(ctx, gen_case(ctx)), items, "audit")
